@@ -9,6 +9,10 @@ HARNESSES = [
          files=[("internal/pppoe/zz_verif_c03_pppoe_test.go", "harness/C03/zz_verif_c03_pppoe_test.go")]),
     dict(name="ipoe", pkg="./internal/ipoe/", test="TestVerifC03IPoE", timeout=900,
          files=[("internal/ipoe/zz_verif_c03_ipoe_test.go", "harness/C03/zz_verif_c03_ipoe_test.go")]),
+    # same harness file under the race detector: the forced-overlap cases (two AAA answers for one session, the
+    # first held inside the dataplane add while the second runs)
+    dict(name="ipoec", pkg="./internal/ipoe/", test="TestVerifC03IPoE", timeout=900, race=True,
+         files=[("internal/ipoe/zz_verif_c03_ipoe_test.go", "harness/C03/zz_verif_c03_ipoe_test.go")]),
     dict(name="radius", pkg="./plugins/auth/radius/", test="TestVerifC03Radius", timeout=300,
          files=[("plugins/auth/radius/zz_verif_c03_radius_test.go", "harness/C03/zz_verif_c03_radius_test.go")]),
 ]
@@ -226,6 +230,29 @@ def gen_ipoe(rng, tier, budget):
     return cases
 
 
+def gen_ipoec():
+    """Forced overlap: P:<e1>&<e2> runs e2 while e1 is held in the middle of handleAAAResponse (inside the
+    dataplane add).  Every pair of answers for one session x what is pending x what follows."""
+    cases = []
+    ans = ["a:0:cur:acc", "a:0:cur:rej", "a:0:cur:err"]
+    # no mixed v4+v6 pending here: the two goroutines the accept starts then race on the shared allocator context
+    # (handleAck reads AllocCtx.AllocatedIANAPool while ResolveV6 writes it) and the race detector fails the test on
+    # the unchanged tree — recorded in notes/C03.md, not a C03 property
+    pend = [["D:0"], ["R:0"], ["D:0", "R:0"], ["S:0", "Q:0"], ["S:0"]]
+    tails = [["v:ok", "D:0", "R:0", "L:0:ok"], ["D:0", "v:ok", "R:0", "S:0", "Q:0"], ["v:fail", "D:0", "R:0"]]
+    for p in pend:
+        for a in ans:
+            for b in ans:
+                for t in tails:
+                    cases.append("ipoec 2 16 " + " ".join(p + ["P:%s&%s" % (a, b)] + t))
+        # while the accept is held: traffic and answers of ANOTHER subscriber.  (Client packets of the same
+        # subscriber overlapping its accept are handled twice / after a release by the held handler on the
+        # unchanged tree - handler atomicity the model assumes does not hold there; see notes/C03.md.)
+        for b in ["D:1", "R:1", "a:1:cur:acc", "a:1:cur:rej"]:
+            cases.append("ipoec 2 16 " + " ".join(p + ["D:1", "P:a:0:cur:acc&%s" % b, "v:ok", "v:ok", "D:0", "R:0", "D:1"]))
+    return cases
+
+
 def gen_radius():
     # the whole decision table, twice (the second pass runs on warmed-up connections and dead-server bookkeeping)
     tbl = ["radius %d %s %s" % (fb, srv, at) for fb in (0, 1) for srv in ("accept", "reject", "other", "none")
@@ -234,7 +261,7 @@ def gen_radius():
 
 
 def gen_cases(rng, tier, budget):
-    return gen_pppoe(rng, tier, budget) + gen_ipoe(rng, tier, budget) + gen_radius()
+    return gen_pppoe(rng, tier, budget) + gen_ipoe(rng, tier, budget) + gen_ipoec() + gen_radius()
 
 
 # ------------------------------------------------------------------ verdict helpers
@@ -249,14 +276,14 @@ def nontrivial(case, out):
         return True
     if t[0] == "pppoe":
         return any(e.startswith("a:") for e in t[2:]) and ("I2" in out or "V2" in out or "|lA" in out)
-    if t[0] == "ipoe":
-        return any(e.startswith("a:") for e in t[3:]) and ("OFFER" in out or "ACK" in out or "ADV" in out or "f1" in out)
+    if t[0] in ("ipoe", "ipoec"):
+        return any("a:" in e for e in t[3:]) and ("OFFER" in out or "ACK" in out or "ADV" in out or "f1" in out)
     return True
 
 
 def events(case):
     t = case.split()
-    return t[3:] if t[0] == "ipoe" else t[2:]
+    return t[3:] if t[0] in ("ipoe", "ipoec") else t[2:]
 
 
 def first_div(a, b):
@@ -320,7 +347,7 @@ def shrink(case):
     t = case.split()
     if t[0] == "radius":
         return
-    nh = 3 if t[0] == "ipoe" else 2
+    nh = 3 if t[0] in ("ipoe", "ipoec") else 2
     head, ev = t[:nh], t[nh:]
     for i in range(len(ev)):
         yield " ".join(head + ev[:i] + ev[i + 1:])
